@@ -725,7 +725,9 @@ CrashPats ==
   \* CookieMaxAge & co. dereference the response's cookies, which are nil until Cookie(...) ran
   ("crash.cookie_attribute_without_cookie" :> Pat(CookieAttrFns, AnyTok, AnyTok, AnyTok, AnyTok)) @@
   \* Metadata / Trailers / (gRPC) Headers whose function defines no attribute: NewMappedAttributeExpr panics on the nil type
-  ("crash.mapped_attribute_empty_dsl" :> Pat({"Metadata", "Trailers", "Headers"}, AnyTok, AnyTok, AnyTok, AnyTok))
+  ("crash.mapped_attribute_empty_dsl" :> Pat({"Metadata", "Trailers", "Headers"}, AnyTok, AnyTok, AnyTok, AnyTok)) @@
+  \* Extend(CollectionOf(RT)): an object when Extend looks, an array when Finalize merges ("cannot merge non object attributes")
+  ("crash.extend_collection" :> Pat({"Extend"}, AnyTok, {"CollR1", "CollR2"}, AnyTok, AnyTok))
 PatDevs == DOMAIN CrashPats
 Triggered(d, ns) ==
   CASE d \in PatDevs -> \E i \in Idx(ns) : Match(ns, i, CrashPats[d])
@@ -744,11 +746,17 @@ Triggered(d, ns) ==
     [] d = "crash.unknown_view_on_result_type" ->
          \/ \E i \in Idx(ns) : ns[i].f = "View" /\ ns[i].v = "plain" /\ ns[i].p # 0 /\ ns[ns[i].p].f \in {"ResultType", "Attributes"}
          \/ \E i \in Idx(ns) : ns[i].t = "CollFn"
+    \* an error response with headers for an error nobody declared: Validate reports the error, then dereferences it
+    [] d = "crash.error_response_headers_undeclared_error" ->
+         \E j \in Idx(ns) : ns[j].f \in {"Header", "Cookie", "Headers"} /\ ns[j].p # 0 /\ ns[ns[j].p].f = "Response" /\ ns[ns[j].p].n # "-"
+    \* Message(func() {}) (no attribute) on a method whose payload is not an object: validateMessage dereferences the nil object
+    [] d = "crash.grpc_message_empty_dsl" ->
+         \E i \in Idx(ns) : ns[i].f = "Message" /\ DeclNames(ns, i) = {}
     [] d = "crash.base_cycle" ->
          \E i \in Idx(ns) : ns[i].f \in {"Extend", "Reference"} /\ ns[i].t \in UserToks /\ Defined(ns, ns[i].t)
     [] OTHER -> FALSE
 CrashDevs == PatDevs \cup {"crash.extend_reference_nil", "crash.service_redefined_nil_dsl", "crash.response_attr_not_in_view", "crash.base_cycle",
-                         "crash.unknown_view_on_result_type"}
+                         "crash.unknown_view_on_result_type", "crash.error_response_headers_undeclared_error", "crash.grpc_message_empty_dsl"}
 AcceptDevs == {"accept.request_mapping", "accept.response_mapping", "accept.grpc_mapping", "accept.scheme", "accept.view", "accept.error_response"}
 KindOfAccept(d) == CASE d = "accept.request_mapping" -> "request_mapping" [] d = "accept.response_mapping" -> "response_mapping"
                      [] d = "accept.grpc_mapping" -> "grpc_mapping" [] d = "accept.scheme" -> "scheme"
